@@ -70,6 +70,12 @@ func TaggingHeader(tags []Tag) string {
 	return strings.Join(parts, "&")
 }
 
+// TaggingHeaderForm is TaggingHeader with a space written as "+" (form encoding), the other spelling the
+// header allows.
+func TaggingHeaderForm(tags []Tag) string {
+	return strings.ReplaceAll(TaggingHeader(tags), "%20", "+")
+}
+
 func PutObjectTagging(bucket, key string, tags []Tag) *Req {
 	return &Req{Method: "PUT", Path: objPath(bucket, key), Query: []KV{{"tagging", ""}}, Body: TaggingXML(tags)}
 }
